@@ -298,7 +298,10 @@ func runC11(c C11Case, cs *kit.CaseStats) error {
 				cp = a
 			}
 		}
-		if cp != nil && cp.Block.V2 != nil && hgt >= 1 {
+		// (and above the Oak hardfork height: below it the difficulty adjustment
+		// needs ancestors a checkpoint database does not have - on every real
+		// network that height lies far below the v2 heights)
+		if cp != nil && cp.Block.V2 != nil && hgt > tr.Network.HardforkOak.Height {
 			for _, b := range byz {
 				go b.ServeInbound(nil)
 			}
@@ -426,6 +429,9 @@ func runC11(c C11Case, cs *kit.CaseStats) error {
 			}
 			return blk
 		}
+		// (on the easiest target kit.Grind may not find a nonce that misses it and
+		// falls back to an indivisible nonce, which is not "insufficient work")
+		lowWork := func(id types.BlockID) bool { return id.CmpWork(pst.PoWTarget()) < 0 }
 		outlineOf := func(blk types.Block) gateway.V2BlockOutline {
 			if blk.V2 != nil {
 				return gateway.OutlineBlock(blk, nil, nil)
@@ -436,6 +442,9 @@ func runC11(c C11Case, cs *kit.CaseStats) error {
 		switch b.Corr.RPC + "/" + b.Corr.Kind {
 		case "relay-header/low-work":
 			lb := mk(false)
+			if !lowWork(lb.ID()) {
+				return
+			}
 			err = p2px.RelayHeader(conn, lb.Header())
 		case "relay-header/unknown-parent":
 			vb := mk(true)
@@ -443,7 +452,11 @@ func runC11(c C11Case, cs *kit.CaseStats) error {
 			hd.ParentID[7] ^= 0x55
 			err = p2px.RelayHeader(conn, hd)
 		case "relay-outline/low-work":
-			err = p2px.RelayOutline(conn, outlineOf(mk(false)))
+			o := outlineOf(mk(false))
+			if !lowWork(o.ID(pst)) {
+				return
+			}
+			err = p2px.RelayOutline(conn, o)
 		case "relay-outline/unknown-parent":
 			o := outlineOf(mk(true))
 			o.ParentID[9] ^= 0x33
@@ -455,14 +468,20 @@ func runC11(c C11Case, cs *kit.CaseStats) error {
 			}
 			err = p2px.RelayOutline(conn, gateway.OutlineBlock(bad.Block, nil, nil))
 			relayAtH[i] = true
-		case "relay-outline/wrong-missing", "relay-outline/no-missing", "relay-outline/hash-lie":
+		case "relay-outline/wrong-missing", "relay-outline/no-missing", "relay-outline/txn-altered":
 			good := nodeAt(tr, c.GoodChild)
 			if cur != H || good == nil || !good.Valid() || good.Block.V2 == nil || good.Parent != H || len(good.Block.V2.Transactions) == 0 {
 				return
 			}
 			o := gateway.OutlineBlock(good.Block, nil, nil)
-			if b.Corr.Kind == "hash-lie" {
-				o.Transactions[0].Hash[2] ^= 0x10
+			if b.Corr.Kind == "txn-altered" {
+				// the transactions an outline carries travel without their hashes, so
+				// the lie is a different transaction in place of the first v2 one
+				// (its signature no longer covers it; the block id changes with it)
+				k := len(o.Transactions) - len(good.Block.V2.Transactions)
+				alt := good.Block.V2.Transactions[0].DeepCopy()
+				alt.ArbitraryData = append(alt.ArbitraryData, 'x')
+				o.Transactions[k] = gateway.OutlineTransaction{Hash: alt.MerkleLeafHash(), V2Transaction: &alt}
 			} else {
 				o.Transactions[0].Transaction, o.Transactions[0].V2Transaction = nil, nil
 			}
@@ -559,6 +578,10 @@ func runC11(c C11Case, cs *kit.CaseStats) error {
 		}
 	}
 	elapsed := time.Since(start)
+	if !quiescent {
+		// a relay may have gone out in the last round: let its handler finish
+		time.Sleep(500 * time.Millisecond)
+	}
 
 	// ---- verdict
 	if err := victim.Close(closeWatchdog); err != nil {
@@ -654,7 +677,7 @@ func runC11(c C11Case, cs *kit.CaseStats) error {
 			if delivered {
 				expect = "sent " + key
 			}
-		case "relay-outline/invalid-child", "relay-outline/wrong-missing", "relay-outline/no-missing", "relay-outline/hash-lie":
+		case "relay-outline/invalid-child", "relay-outline/wrong-missing", "relay-outline/no-missing", "relay-outline/txn-altered":
 			if delivered && relayAtH[i] && T == H && quiescent {
 				expect = "sent " + key + " attaching to the victim's tip"
 			}
@@ -740,7 +763,7 @@ func runC11(c C11Case, cs *kit.CaseStats) error {
 
 var c11Prop = kit.Prop[C11Case]{
 	ID:   "C11",
-	Rule: "a victim syncer (fresh, part-way on the honest chain, on another valid branch, or bootstrapped with RetrieveCheckpoint) + 1..2 real honest peers holding the heaviest valid chain of a generated fork tree (ending below / across / above the v2 require height) + 1..2 scripted Byzantine gateway peers, each claiming the honest chain or a longer branch containing one block core rejects (body-level or header-level corruption) or a valid lighter branch, and telling one wire lie: SendHeaders (broken link, low work, old timestamp, wrong remaining, duplicate, wrong message type, garbage, close), SendV2Blocks (other branch, swapped/dropped bodies under the same id, too few/many, reordered, foreign first block, wrong type, garbage, close), SendCheckpoint (non-v2, wrong id, altered state fields, inflated work, self-consistent forged state, wrong type, garbage), relayed headers/outlines/transaction sets (low work, unknown parent, invalid child of the tip, wrong/no missing transactions, hash lie, empty set, unknown basis, invalid set). Every case: victim and honest peers pass the chain audit against the reference ledger (incl. full replay), tip work never decreases, no handler panic escapes, honest peers are never banned, a checkpoint returned by RetrieveCheckpoint is the true one; Ban is asserted for low-work relays, empty sets and (when sent onto the settled tip) invalid/incompletable outlines. Quiescent cases: the honest chain is not sufficiently heavier than the victim's tip, and the tip equals it when it dominates every valid chain on offer. Non-trivial = the victim issued the corrupted RPC and the delivered payload differed from the honest one (or the active lie was delivered).",
+	Rule: "a victim syncer (fresh, part-way on the honest chain, on another valid branch, or bootstrapped with RetrieveCheckpoint) + 1..2 real honest peers holding the heaviest valid chain of a generated fork tree (ending below / across / above the v2 require height) + 1..2 scripted Byzantine gateway peers, each claiming the honest chain or a longer branch containing one block core rejects (body-level or header-level corruption) or a valid lighter branch, and telling one wire lie: SendHeaders (broken link, low work, old timestamp, wrong remaining, duplicate, wrong message type, garbage, close), SendV2Blocks (other branch, swapped/dropped bodies under the same id, too few/many, reordered, foreign first block, wrong type, garbage, close), SendCheckpoint (non-v2, wrong id, altered state fields, inflated work, self-consistent forged state, wrong type, garbage), relayed headers/outlines/transaction sets (low work, unknown parent, invalid child of the tip, wrong/no missing transactions, altered transaction, empty set, unknown basis, invalid set). Every case: victim and honest peers pass the chain audit against the reference ledger (incl. full replay), tip work never decreases, no handler panic escapes, honest peers are never banned, a checkpoint returned by RetrieveCheckpoint is the true one; Ban is asserted for low-work relays, empty sets and (when sent onto the settled tip) invalid/incompletable outlines. Quiescent cases: the honest chain is not sufficiently heavier than the victim's tip, and the tip equals it when it dominates every valid chain on offer. Non-trivial = the victim issued the corrupted RPC and the delivered payload differed from the honest one (or the active lie was delivered).",
 	Assumptions: []string{
 		"honest tips keep being announced every 200 ms; dropped honest connections are re-dialled",
 		"Byzantine peers hold no hash-collision power: a lie keeps at most the block id (v2 bodies under an unchanged header)",
